@@ -490,7 +490,7 @@ class Interp:
             elif v[0] == 'ctor' and v[1] in ('Err', 'None'):
                 outs.append(Out('ret', ('tryerr', v), o.st.event(('try-err', v, e))))
             else:
-                good = 'Some' if (e['e'].get('ty') or '').startswith('std::option::Option') else 'Ok'
+                good = 'Some' if (e['e'].get('ty') or '').startswith('core::option::Option') else 'Ok'
                 atom = ('is', v, good)
                 k = o.st.known(atom)
                 if k is not False:
@@ -895,8 +895,8 @@ def fmt(t, depth=0):
 
 def builtin_summary(I, cal, args, node, st):
     name = cal.rsplit('::', 1)[-1]
-    is_opt = cal.startswith('std::option::Option::<T>::')
-    is_res = cal.startswith('std::result::Result::<T, E>::')
+    is_opt = cal.startswith('core::option::Option::<T>::')
+    is_res = cal.startswith('core::result::Result::<T, E>::')
     if hirq.is_transparent(cal) and args:
         return [Out('val', args[0], st)]
     if (is_opt or is_res) and name in ('expect', 'unwrap', 'unwrap_or_default') and args:
@@ -935,8 +935,8 @@ def builtin_summary(I, cal, args, node, st):
             else:
                 outs.append(o)
         return outs
-    if (cal.endswith('std::vec::Vec::<T, A>::pop') or cal.endswith('std::vec::IntoIter<T, A> as std::iter::Iterator>::next')
-            or cal == 'std::iter::Iterator::next') and args:
+    if (cal.endswith('alloc::vec::Vec::<T, A>::pop') or cal.endswith('IntoIter<T, A> as core::iter::traits::iterator::Iterator>::next')
+            or cal == 'core::iter::traits::iterator::Iterator::next') and args:
         base = args[0]
         key = ('cursor', base)
         n = st.heap.get(key, 0)
